@@ -282,3 +282,36 @@ pub fn binding_username<S: Src>(s: &mut S) {
     pv_check!(s, p.directionality_rule("\u{5d0}a") == Err(Error::Invalid), "PV: UsernameCasePreserved directionality rule is bound");
     pv_cover!(s, true, "COVER: reached");
 }
+
+/// Constant multi-character witnesses for the interactions that one symbolic character cannot show (order of case
+/// mapping and NFC, width then case then NFC, NFC then directionality, width mapping then class error): both username
+/// profiles, prepare and enforce, against the specification.  Inputs are constants (folded by the solver).
+pub fn order_witnesses<const K: usize, S: Src>(s: &mut S) {
+    const W: [&str; 8] = [
+        "J\u{30c}",                 // lowercase then compose (U+01F0) != compose then lowercase
+        "\u{ff21}\u{301}",          // fullwidth A + acute: width, case, NFC -> U+00E1
+        "\u{2126}a",                // OHM SIGN: NFC singleton, then lowercase order
+        "\u{5d0}1",                 // R EN: valid RTL label
+        "\u{5d0}\u{660}1",          // AN and EN mixed: directionality rejects
+        "a\u{3000}",                // width mapping produces U+0020: IdentifierClass rejects the MAPPED character
+        "e\u{301}\u{5d0}",          // L ... R: LTR label with an R character
+        "\u{ff21}\u{ff21}\u{30c}",  // three characters, composition at the end
+    ];
+    {
+        let input = W[K];
+        let a = super::pipe::arr_of_str::<8>(input);
+        pv_note!(s, "username witnesses: {:?}", input);
+        let m = UsernameCaseMapped::new();
+        let p = UsernameCasePreserved::new();
+        match (spec_enforce::<8, 32>(&a, true), spec_enforce::<8, 32>(&a, false)) {
+            (Some(em), Some(ep)) => {
+                pv_check!(s, same::<8>(&m.enforce(input), &em), "PV: UsernameCaseMapped.enforce on a multi-character witness (order of the steps)");
+                pv_check!(s, same::<8>(&p.enforce(input), &ep), "PV: UsernameCasePreserved.enforce on a multi-character witness (order of the steps)");
+            }
+            _ => {
+                pv_check!(s, false, "MODEL: normalizer model capacity");
+            }
+        }
+    }
+    pv_cover!(s, true, "COVER: reached");
+}
